@@ -126,6 +126,11 @@ def run(ctx):
     thorough = ctx.tier == 'thorough'
     ctx.assumptions = ['pool events are recorded under one mutex in hook order (put before Put, get after Get); GC is off during pool tracing',
                        'the race detector only sees races that happen in the replayed schedules']
+    # the client's request context between caller, write loop, read loop and timer (client.go); the two defect
+    # configurations are the seeded changes C19-1 and C19-5 and must violate
+    ctx.model_check('CtxOwnership', 'CtxOwnership.cfg', workers=2)
+    ctx.model_expect_violation('CtxOwnership', 'CtxOwnership_bad1.cfg', 'NoUseAfterHandBack', workers=2)
+    ctx.model_expect_violation('CtxOwnership', 'CtxOwnership_bad2.cfg', 'NoUseAcrossGenerations', workers=2)
     ctx.model_check('Pools', 'Pools.cfg')
     r = ctx.tlc('Pools', 'Pools_sloppy.cfg')
     if 'is violated' not in r.out:
